@@ -942,7 +942,10 @@ async def play(rd, wr, log, free, deco, cfg, closer, cutter, obs):
             return
         if who == free:
             await _quiesce()
-            if obs['early'] is None and _pending(rd):
+            # a peer that is about to answer (or to send the next request)
+            # must find nothing it did not ask for; a peer that just leaves
+            # may leave unread bytes behind
+            if obs['early'] is None and chan != 'quit' and _pending(rd):
                 obs['early'] = (i, _pending(rd))
             if chan == 'quit':
                 closer()
